@@ -31,6 +31,8 @@ pub const LEXEMES: &[&str] = &[
     " ", "\t", "\n", "\r\n", "\r", "\u{a0}",
     // other characters
     "\u{e9}", "\u{20ac}", "\u{1d11e}", "@", "\\", "`", "\u{2028}", "\u{c}",
+    // characters that tools like to normalise away: byte order mark, NUL, zero-width space, NEL, soft hyphen
+    "\u{feff}", "\0", "\u{200b}", "\u{85}", "\u{ad}",
 ];
 
 /// Hand-written snippets: together they use every statement, body item, type and value form of syntax.md.
@@ -212,7 +214,7 @@ pub fn split_pieces(text: &str) -> Vec<(usize, usize, PieceKind)> {
 }
 
 pub const UNTERMINATED: &[&str] = &["\"abc", "[{ abc", "/* abc", "#ifdef M\n", "#ifndef M\n", "#ifdef M\n#else\n", "#ifdef\n", "#define\n", "( [ {", "!cond(", "<"];
-pub const NON_ASCII: &[&str] = &["\u{e9}", "\u{20ac}", "\u{1d11e}", "\u{a0}", "\u{2028}", "\u{3042}\u{3044}"];
+pub const NON_ASCII: &[&str] = &["\u{e9}", "\u{20ac}", "\u{1d11e}", "\u{a0}", "\u{2028}", "\u{3042}\u{3044}", "\u{feff}", "\u{200b}", "\u{85}", "\0"];
 
 fn non_space_indices(pieces: &[(usize, usize, PieceKind)]) -> Vec<usize> {
     pieces.iter().enumerate().filter(|(_, p)| p.2 != PieceKind::Space).map(|(i, _)| i).collect()
